@@ -37,7 +37,7 @@ DESCRIBE = {
     "assumptions": ["the fresh twin receives the parameter tensors themselves (same dtype, same bits), so any difference in results comes from history, not from file rounding",
                     "results compared bit for bit (same process, one thread)", "mixture model not covered"],
 }
-KINDS = ["logistic_diag", "logistic_scalar", "logistic_uni", "logistic_diag_nosrc", "linear_diag", "linear_uni", "shared_speed", "joint_uni", "joint_multi", "logistic_binary"]
+KINDS = ["logistic_diag", "logistic_scalar", "logistic_uni", "logistic_diag_nosrc", "linear_diag", "linear_uni", "shared_speed", "joint_uni", "joint_multi", "joint_ev2", "logistic_binary"]
 PERSO = ["scipy_minimize", "mean_posterior", "mode_posterior"]
 
 
